@@ -81,6 +81,16 @@ OPTIONS_AFFECTING_CACHE: Final = (
         "untyped_calls_exclude",
         "enable_incomplete_feature",
         "install_types",
+        # These change the presence, severity or rendered text of diagnostics that are
+        # stored in (and replayed from) the cache, so stale entries must not be reused.
+        "allow_empty_bodies",
+        "deprecated_calls_exclude",
+        "many_errors_threshold",
+        "report_deprecated_as_note",
+        "show_absolute_path",
+        "show_error_code_links",
+        "show_error_context",
+        "warn_redundant_casts",
     }
 ) - {"debug_cache"}
 
